@@ -219,7 +219,7 @@ def r6(ctx):
     ctx.require_guards(bd, rf[0].idx, [("type count == max", g_rel("Eq", lambda x: mentions_call(x, r"get_type_count$") and mentions_field(x, "total"), lambda x: mentions_call(x, r"get_max$")))], "insert:remove_first", "remove_first in insert")
     e = sym.call_expr(rf[0].term)
     ctx.check(e[2][1][0] == "fn" and e[2][1][1].endswith("Insertable::is_type"), "insert:same-type", "displaced record chosen by %s" % expr_str(e[2][1]), bd.where(rf[0].idx))
-    some = g_is(lambda x: mentions_call(x, r"remove_first$"), "Some")
+    some = g_is(lambda x: x[0] == "call" and re.search(r"remove_first$", x[1] or "") is not None, "Some")
     ovs = agg_sites(bd, r"buffer::InsertError$", "Overflow")
     ctx.check(len(ovs) == 1, "insert:overflow-reported", "Overflow constructed once", bd.where(ovs[0][0].idx) if ovs else "")
     for b, si, st in ovs:
